@@ -177,8 +177,34 @@ template<unsigned M> static void run_mask2(const std::vector<std::string>& input
 }
 template<unsigned... M> static void run_all2(const std::vector<std::string>& inputs, std::integer_sequence<unsigned, M...>) { (run_mask2<M>(inputs), ...); }
 
+// ---------------------------------------------------------------- third part: the library's own helper functors attached with '>>=' receive the context as
+// their first argument like any other functor (so _e1 yields the context, _e2 the first right-side value, construct<T,1> builds T from the context)
+constexpr nterm<int> h_root("root"); constexpr nterm<int> h_item("item"); constexpr nterm<int> h_two("two");
+static void run_helpers() {
+    using namespace ctpg::ftors;
+    static const parser p(h_root, terms('1', '2', '3', '4', '5', '+'), nterms(h_root, h_item, h_two), rules(
+        h_root(h_item) >= _e1,
+        h_two('2') >= val(2),
+        h_root(h_root, '+', h_item) >= [](int a, skip, int b) { return a * 1000 + b; },
+        h_item('1') >>= _e1,                   // the context
+        h_item(h_two, '1') >>= _e2,            // the first right-side value (2), not the context
+        h_item('3') >>= construct<int, 1>{},   // int(context)
+        h_item('4') >>= val(44),
+        h_item('5') >>= create<int>{}));
+    struct Case { const char* in; int ctx; int want; };
+    const Case cases[] = {{"1", 123, 123}, {"21", 123, 2}, {"3", 77, 77}, {"4", 9, 44}, {"5", 9, 0}, {"1+3", 5, 5005}, {"21+1", 6, 2 * 1000 + 6}, {"4+5", 1, 44000}, {"1+1+1", 2, (2 * 1000 + 2) * 1000 + 2}};
+    for (const Case& c : cases) {
+        ++g_cases; ++g_checks;
+        int ctx = c.ctx; std::ostringstream es; auto r = p.context_parse(ctx, string_buffer(c.in), es);
+        if (!r || *r != c.want) fail(0, "int context, helper functors attached with >>=", c.in, "context_parse gives " + (r ? std::to_string(*r) : std::string("empty")) + ", helper functors called with the context as first argument give " + std::to_string(c.want));
+        ++g_checks; const int cctx = c.ctx; auto r2 = p.context_parse(cctx, string_buffer(c.in));
+        if (!r2 || *r2 != c.want) fail(0, "const int context, helper functors attached with >>=", c.in, "context_parse gives " + (r2 ? std::to_string(*r2) : std::string("empty")) + " expected " + std::to_string(c.want));
+    }
+}
+
 int main(int argc, char** argv) {
     int n = argc > 1 ? std::atoi(argv[1]) : 4;
+    run_helpers();
     {
         std::vector<std::string> in2{""}; int n2 = n > 6 ? 7 : n + 2;
         for (size_t lo = 0, l = 0; l < (size_t)n2; ++l) { size_t hi = in2.size(); for (size_t i = lo; i < hi; ++i) for (char c : {'a', 'b', ';', 'n'}) in2.push_back(in2[i] + c); lo = hi; }
